@@ -1,10 +1,14 @@
 import VaxisModel.Driver.Common
-import VaxisModel.Driver.C05
+import VaxisModel.Model.EmuIO
 import VaxisModel.Model.EmuAbs
 import VaxisModel.Spec.Term
 
-/-! Driver for C06 (stateful). Same input lines as C05. `model-canon` / `impl-canon` are those of the
-C05 driver (emulator model vs. implementation). The verdict is the C06 oracle: the reference
+/-! Driver for C06 (stateful). Same input lines as C05. This driver is the ORACLE only and depends
+neither on the transcribed function bodies of the emulator model nor on its dispatch tables (it
+imports the state types, the snapshot parser and the abstraction), so it still builds — and still
+finds the failing input — when a change of the source stops the model from compiling; `model-canon`
+/ `impl-canon` are `=` (the model ≡ implementation correspondence on these very sequences is checked
+by the C05 driver, whose harness replays a slice of them). The verdict is the C06 oracle: the reference
 terminal `Spec.Term` is run on the same operations and its state must accept the IMPLEMENTATION's
 snapshot after every operation of the vocabulary. The driver keeps the set of reference states
 that are still compatible with what the implementation showed (accept-sets); after an
@@ -14,7 +18,6 @@ namespace VaxisModel.Driver.C06
 open VaxisModel.Driver VaxisModel.Model.Emu VaxisModel.Model.EmuIO VaxisModel.Model.EmuAbs VaxisModel.Spec
 
 structure St where
-  c05 : C05.St := {}
   frontier : List Term.T := []
 
 def showCell : Term.TCell → String
@@ -65,21 +68,29 @@ def specVerdict (st : St) (cmd : Cmd) (actual : Emu) : List Term.T × String :=
           ([absShadow actual], "FAIL spec: " ++ explain best act)
         | [], [] => ([absShadow actual], "-")
 
+def splitEv (impl : String) : Option (Nat × String) :=
+  match impl.splitOn " " with
+  | ev :: rest => do
+    let n ← (← kv? "ev" ev).toNat?
+    some (n, " ".intercalate rest)
+  | [] => none
+
 def step (st : St) (line : String) : St × String :=
   let (op, impl) := splitTab line
-  let (c05', out) := C05.step st.c05 line
-  if op.startsWith "#case" then ({}, out) else
-  match out.splitOn "\t", parseOp? op with
-  | [a, b, v], some cmd =>
-    if v.startsWith "FAIL" then ({ c05 := c05', frontier := [] }, out)
+  if op.startsWith "#case" then ({}, "-\t-\t-") else
+  match parseOp? op with
+  | none => ({}, "bad-op\tbad-op\tbad-op")
+  | some cmd =>
+    if impl = "panic" ∨ impl = "hang" then ({}, s!"=\t=\tFAIL {impl}")
     else
-      match c05'.model with
-      | none => ({ c05 := c05', frontier := [] }, out)
-      | some actual =>
-        let (fr, sv) := specVerdict st cmd actual
-        let _ := impl
-        ({ c05 := c05', frontier := fr }, s!"{a}\t{b}\t{sv}")
-  | _, _ => ({ c05 := c05', frontier := [] }, out)
+      match splitEv impl with
+      | none => ({}, "=\tunparsed\tFAIL unparsed implementation result")
+      | some (_, snap) =>
+        match parseSnap? snap with
+        | none => ({}, "=\tunparsed\tFAIL unparsed implementation snapshot")
+        | some s =>
+          let (fr, sv) := specVerdict st cmd s.e
+          ({ frontier := fr }, s!"=\t=\t{sv}")
 
 def main : IO Unit := foldLoop ({} : St) step
 
